@@ -36,7 +36,7 @@ CHECKS = {
          "DESIGN.md §5 C08"),
  "C14": ("exploration",
          "offline checker over the recorded callback + BuildTracer event log: exactly-once counting against the reference closure and a per-key bracket automaton; logical termination bound",
-         "Same worlds as C08. All fetcher/registry/finder calls and trace events go to one sequence-numbered log; the checker requires exactly one fetch per closure package (none outside), one version-list request per registry package, one source-address request per selected version, finder runs equal to the number of distinct closure addresses per (content, sub-path, finder), and start->(success|failure)->already* per key. A build exceeding 4x the closure's callback count is aborted and reported as non-terminating. A further phase fails every fetch / registry callback position of generated worlds in turn and runs the bracket automaton over the faulted build's log (failure answers a start; 'already' only after a success).",
+         "Same worlds as C08. All fetcher/registry/finder calls and trace events go to one sequence-numbered log; the checker requires exactly one fetch per closure package (none outside), one version-list request per registry package, one source-address request per selected version, finder runs equal to the number of distinct closure addresses per (content, sub-path, finder), and start->(success|failure)->already* per key. A build exceeding 4x the closure's callback count is aborted and reported as non-terminating. A further phase fails every callback position of generated worlds in turn and runs the bracket automaton over the faulted build's log (failure answers a start; 'already' only after a success).",
          "Order of events is unconstrained; the counting clauses are checked on fault-free worlds only, the trace clauses also under single faults.",
          "DESIGN.md §5 C14"),
  "C17": ("exploration",
